@@ -22,10 +22,8 @@ LOCAL Congr(x, y, m) == ZDivides(m, ZSub(x, y))              \* x = y (mod m)
 (*    then MP(a, m, b, n) = sum_{0<=i<m, 0<=j<n, n-1<=i+j<=m-1} a_ib_j B^{i+j-n+1}"                                      *)
 (* For a fixed j the admissible i are n-1-j .. m-1-j: the m-n+1 limbs of a starting at limb n-1-j, weighted from B^0.    *)
 (* bl = the n limbs of b (a sequence, least significant first).                                                          *)
-RECURSIVE MPSum(_, _, _, _, _)
-MPSum(a, m, bl, n, j) == IF j = n THEN "0"
-                         ELSE ZAdd(ZMul(bl[j + 1], ZLowBits(ZShr(a, W * (n - 1 - j)), W * (m - n + 1))), MPSum(a, m, bl, n, j + 1))
-MP(a, m, b, n) == MPSum(a, m, ZLimbs(b, W, n), n, 0)
+(* The sum is BigZ!ZMulMid (TLA+ definition there, BigInteger accelerator checked against it by L0Equiv).                 *)
+MP(a, m, b, n) == ZMulMid(a, m, b, n, W)
 
 FunsK1 == {"mpn_mullow_n", "mpn_mullow_n_basecase", "mpn_mullow_basecase", "mpn_mulhigh_n", "mpn_sqr",
            "mpn_mulmid_basecase", "mpn_mulmid", "mpn_mulmid_n", "mpn_toom42_mulmid",
